@@ -32,7 +32,7 @@ ASSUMPTIONS = [
 
 OBS = {
     "xy": [
-        "cost_function_value", "model", "total_cov_mat", "total_error", "x_total_cov_mat", "y_total_cov_mat", "x_total_error", "y_total_error",
+        "cost_function_value", "model", "model_property", "total_cov_mat", "total_error", "x_total_cov_mat", "y_total_cov_mat", "x_total_error", "y_total_error",
         "y_model_error", "y_model_cov_mat", "y_data_cov_mat", "x_data_error", "total_cor_mat", "total_cov_mat_inverse", "ndf", "goodness_of_fit",
         "chi2_probability", "parameter_values", "did_fit", "data", "result_dict",
     ],
@@ -218,7 +218,7 @@ class RefCache(object):
 
 
 OBS_QUICK = {
-    "xy": ["cost_function_value", "model", "total_cov_mat", "total_error", "y_model_error", "x_total_error", "y_data_cov_mat", "ndf", "goodness_of_fit", "chi2_probability", "parameter_values", "result_dict"],
+    "xy": ["cost_function_value", "model", "model_property", "total_cov_mat", "total_error", "y_model_error", "x_total_error", "y_data_cov_mat", "ndf", "goodness_of_fit", "chi2_probability", "parameter_values", "result_dict"],
     "indexed": ["cost_function_value", "model", "total_cov_mat", "total_error", "model_error", "ndf", "goodness_of_fit", "chi2_probability", "parameter_values", "result_dict"],
     "hist": ["cost_function_value", "model", "total_error", "ndf", "goodness_of_fit", "parameter_values", "data", "result_dict"],
     "unbinned": ["cost_function_value", "model", "ndf", "parameter_values", "result_dict"],
